@@ -395,6 +395,7 @@ def confirm(ex_factory, harness, finding, cfg, srcs, tag, tol=1e-9):
     ex2.work = []
     ex2._reset_path([])
     ex2.concrete = dict(finding.model)
+    core.STRICT_BITS[0] = False
     outcome = "completed"
     try:
         harness(ex2)
@@ -444,6 +445,7 @@ def validate_path(ex_factory, harness, model, cfg, srcs, tag, tol=1e-9):
     ex2.work = []
     ex2._reset_path([])
     ex2.concrete = dict(model)
+    core.STRICT_BITS[0] = False
     try:
         harness(ex2)
     except (core.Abort, core.Infeasible, core.Unsupported):
